@@ -21,7 +21,7 @@ RULE = ("(A) every ranked list of n<=7 (quick) / n<=8 (thorough) positions, each
 ASSUMPTIONS = [
     "exchangeability of null targets and decoys is the property's premise (simulated, not proved)",
     "that per-fold calibration preserves exchangeability when folds are merged is not proved (observed by the Monte-Carlo estimate)",
-    "the general equality 'accept set of fd_fdp = targets with tdc q <= alpha' is proved only for n <= 6 (vm_compute sweep) and checked here against the real tdc",
+    "the equality 'accept set of fd_fdp = targets with tdc q <= alpha' is proved for every list (C04_accept_set_is_tdc, alpha < 1) about the C01 model; the real tdc is tied to that model by stream (A) here and by the C01 correspondence",
 ]
 TRUSTED_EXTRA = c02.TRUSTED_EXTRA
 
